@@ -275,6 +275,10 @@ def grammar_case(idx, defn, section):
     got, want = path.value
     if wrong:
       want = want + 1
+    from symx import elim
+    if not wrong and (got.eq(want) or elim.is_zero_poly(got - want)):
+      # identical up to polynomial normalisation: no solver needed
+      return [VC("potable==api", z3.BoolVal(True), info=dict(key="grammar-%s" % section))]
     return [VC("potable==api", eq_formula(got, want), info=dict(key="grammar-%s" % section))]
 
   def replay(v, w, path, structural):
